@@ -1230,3 +1230,98 @@ func TestLongLivedServer(t *testing.T) {
 		}
 	}
 }
+
+// ---------------------------------------------------------------------------
+// the accept callback's count when NO close callback is installed: the harness then has no signal for "the server has finished with
+// that connection", so the scenario is built on "eventually": clients connect and disconnect one at a time; a while after the last one
+// has gone, a probe connection must be told 1 (it is the only live connection). A probe that is told more is closed and the probe
+// repeated for up to 5 s (the server needs microseconds to notice a closed peer; the ceiling is the one used for every other wait
+// in this check). A count that never comes back to 1 is wrong.
+
+type countCase struct {
+	// Callbacks: cbAccept is always set, cbClose never; cbServe and cbError as drawn
+	Callbacks int    `json:"callbacks"`
+	Visitors  int    `json:"visitors"`
+	Requests  bool   `json:"requests"`
+	Seed      uint64 `json:"seed"`
+}
+
+func runCount(c countCase) harness.Result {
+	l := xport.NewPipeListener()
+	s := &server.Server{ReadTimeout: 10 * time.Millisecond, WriteTimeout: 2 * time.Second}
+	if c.Callbacks&cbError != 0 {
+		s.OnErrorFunc = func(error) {}
+	}
+	if c.Callbacks&cbServe != 0 {
+		s.OnServeFunc = func(net.Addr) {}
+	}
+	told := make(chan uint64, 64)
+	s.OnAcceptConnFunc = func(ctx context.Context, ra net.Addr, n uint64) error { told <- n; return nil }
+	ctx, cancel := context.WithCancel(context.Background())
+	defer cancel()
+	done := make(chan struct{})
+	go func() { defer close(done); _ = s.Serve(ctx, l, &srv.Handler{Dev: device.New(c.Seed)}) }()
+	defer func() { cancel(); _ = l.Close(); <-done }()
+	next := func() (uint64, bool) {
+		select {
+		case n := <-told:
+			return n, true
+		case <-time.After(10 * time.Second):
+			return 0, false
+		}
+	}
+	for v := 0; v < c.Visitors; v++ {
+		conn, err := l.Dial()
+		if err != nil {
+			return harness.Fail("harness: %v", err)
+		}
+		n, ok := next()
+		if !ok {
+			_ = conn.Close()
+			return harness.Fail("visitor %d: accept callback not called within 10 s", v+1)
+		}
+		if n < 1 || n > uint64(v+1) {
+			_ = conn.Close()
+			return harness.Fail("visitor %d (earlier visitors have disconnected): accept callback reported connectionCount=%d; at most %d connections have ever been open at once", v+1, n, v+1)
+		}
+		if c.Requests {
+			req := spec.EncodeRequest(spec.TCP, spec.Req{FC: 3, Unit: 1, Tx: uint16(v), Addr: 5, Qty: 2})
+			want := device.New(c.Seed).Answer(spec.TCP, req)
+			_ = conn.SetDeadline(time.Now().Add(10 * time.Second))
+			if _, err := conn.Write(req); err == nil {
+				_, _ = readFull(conn, len(want), 10*time.Second)
+			}
+		}
+		_ = conn.Close()
+	}
+	// every visitor has gone: eventually a newcomer is the only one
+	deadline := time.Now().Add(5 * time.Second)
+	last := uint64(0)
+	for probes := 1; ; probes++ {
+		time.Sleep(20 * time.Millisecond)
+		conn, err := l.Dial()
+		if err != nil {
+			return harness.Fail("harness: %v", err)
+		}
+		n, ok := next()
+		_ = conn.Close()
+		if !ok {
+			return harness.Fail("probe connection: accept callback not called within 10 s")
+		}
+		if n == 1 {
+			return harness.Result{NonTrivial: c.Visitors >= 1, Labels: []string{fmt.Sprintf("callbacks:%d", c.Callbacks), "accept-count-without-close-callback"}, Weight: int64(c.Visitors + probes)}
+		}
+		last = n
+		if time.Now().After(deadline) {
+			return harness.Fail("no close callback installed; %d visitors connected and disconnected one after the other, then %d probe connections over 5 s, each alone: the accept callback never reported connectionCount=1 again (last: %d)", c.Visitors, probes, last)
+		}
+	}
+}
+
+var chkCount = harness.Define("accept-count-without-close-callback",
+	func(t *rapid.T) countCase {
+		return countCase{Callbacks: cbAccept | rapid.SampledFrom([]int{0, cbServe, cbError, cbServe | cbError}).Draw(t, "callbacks"), Visitors: rapid.IntRange(1, 6).Draw(t, "visitors"),
+			Requests: rapid.Bool().Draw(t, "requests"), Seed: rapid.Uint64().Draw(t, "seed")}
+	}, runCount)
+
+func TestAcceptCountWithoutCloseCallback(t *testing.T) { chkCount.Rapid(t, harness.Pick(8, 150)) }
